@@ -511,10 +511,26 @@ func (ex *Expect) evalComponent(ni int) {
 	case KFileToParams, KCmdToParams:
 		ex.Streams[n.Name+".line"] = &Stream{IsParam: true, Ordered: true, Vals: append([]string(nil), n.Vals...)}
 		ex.Streams[n.Name+".param"] = ex.Streams[n.Name+".line"]
-	case KSplitter, KConcat:
-		// checked by dedicated oracles on recorded streams; no downstream reference
+	case KConcat:
+		in := ex.inStream(n.Ins[0])
+		if len(n.Ins[0].From) == 1 && in.Ordered {
+			// one ordered upstream: arrival order = stream order, the output is predictable
+			var cat []byte
+			for _, it := range in.Items {
+				cat = append(cat, it.Content...)
+				cat = append(cat, '\n')
+			}
+			lin := newLin()
+			lin.Source = true // the Concatenator writes no audit record of its own
+			ex.Files[Abs(n.OutPath)] = cat
+			ex.Lins[Abs(n.OutPath)] = nil
+			ex.Streams[n.Name+".out"] = &Stream{Ordered: true, Items: []Item{{Path: n.OutPath, Content: cat, Lin: lin}}}
+		} else {
+			ex.Streams[n.Name+".out"] = &Stream{}
+		}
+	case KSplitter:
+		// checked by a dedicated oracle on recorded streams; no downstream reference
 		ex.Streams[n.Name+".split_file"] = &Stream{}
-		ex.Streams[n.Name+".out"] = &Stream{}
 	default:
 		panic(fmt.Sprintf("reference: component kind %v not evaluated (%s)", n.Kind, n.Name))
 	}
